@@ -766,6 +766,10 @@ class Corpus:
             names = [x for x in row[-1].strip("[]").split(";") if x]
             snake_clash = len(set(names)) != len(names)
             have = set(self.meta[k].get("derives") or [])
+            if "EnumVariantNames" in have:
+                have.add("VariantNames")       # (the deprecated spelling implements the same trait)
+            if "AsStaticStr" in have or "ToString" in have:
+                have.update(["AsRefStr", "IntoStaticStr"])      # (deprecated derives: keep their definitions as they are)
             extra = []
             for d, o in zip(SAFE, row[:-1]):
                 if d in have or not o.startswith("ok"):
